@@ -135,7 +135,9 @@ Step ==
   /\ LET ev == Ev
          srcOK == ev.srcSame
      IN
-     /\ pf' = Note(pf, "source-untouched@" \o ev.ev, T.opts.inplace \/ srcOK)
+     \* (srcExempt: colour fonts, where the colour-layer filter is known to record its mapping in the caller's lib --
+     \*  finding F-C07-2, decided by the C07 check; here it must not hide the outline clauses)
+     /\ pf' = Note(pf, "source-untouched@" \o ev.ev, T.opts.inplace \/ srcOK \/ (Has(T.opts, "srcExempt") /\ T.opts.srcExempt))
      /\ CASE ev.ev = "PreStart" ->
                \* _GlyphSet.from_layer(copy, skipExportGlyphs): SkipExportGlyphsFilter on the copy
                LET m == SkipExportModel(gs, Skip).gs IN
